@@ -162,6 +162,22 @@ func (e *Variable) SetGrlText(grlText string) {
 	e.GrlText = grlText
 }
 
+// resetTarget returns the variable whose dependants must be re-evaluated after this variable was
+// assigned: the container below the outermost selector on its path, if there is one (the same cell
+// can be addressed with another selector text, e.g. a[i] and a[0], and the container can be consumed
+// whole, e.g. a.Len()), else the variable itself. The container's snapshot is part of the snapshot of
+// everything addressed through it, so this only widens what is reset.
+func (e *Variable) resetTarget() *Variable {
+	target := e
+	for v := e; v != nil; v = v.Variable {
+		if v.ArrayMapSelector != nil && v.Variable != nil {
+			target = v.Variable
+		}
+	}
+
+	return target
+}
+
 // Assign will assign the specified value to the variable
 func (e *Variable) Assign(newVal reflect.Value, dataContext IDataContext, memory *WorkingMemory) error {
 	if len(e.Name) > 0 && e.Variable == nil {
@@ -181,7 +197,7 @@ func (e *Variable) Assign(newVal reflect.Value, dataContext IDataContext, memory
 		err = e.Variable.ValueNode.SetObjectValueByField(e.Name, newVal)
 		if err == nil {
 			dataContext.IncrementVariableChangeCount()
-			memory.ResetVariable(e)
+			memory.ResetVariable(e.resetTarget())
 		}
 
 		return err
@@ -200,9 +216,7 @@ func (e *Variable) Assign(newVal reflect.Value, dataContext IDataContext, memory
 		if e.Variable.ValueNode.IsArray() {
 			err := e.Variable.ValueNode.SetArrayValueAt(int(e.ArrayMapSelector.Value.Int()), newVal)
 			if err == nil {
-				// the same element can be addressed with another selector text (a[i], a[0])
-				// and the container can be consumed whole (a.Len()): reset by the container.
-				memory.ResetVariable(e.Variable)
+				memory.ResetVariable(e.resetTarget())
 			}
 
 			return err
@@ -210,7 +224,7 @@ func (e *Variable) Assign(newVal reflect.Value, dataContext IDataContext, memory
 		if e.Variable.ValueNode.IsMap() {
 			err := e.Variable.ValueNode.SetMapValueAt(e.ArrayMapSelector.Value, newVal)
 			if err == nil {
-				memory.ResetVariable(e.Variable)
+				memory.ResetVariable(e.resetTarget())
 			}
 
 			return err
